@@ -147,6 +147,8 @@ class FnVerifier(Verifier):
 
     def havoc_loop(self, st, body, extra_names=()):
         names = self.assigned_names(body) | set(extra_names)
+        if any(isinstance(n, (ast.Yield, ast.YieldFrom)) for b_ in body for n in ast.walk(b_)):
+            names |= set(self.ctr.yield_acc)
         for n in sorted(names):
             if n in st.env:
                 k = value_kind(st.env[n])
@@ -201,6 +203,14 @@ class FnVerifier(Verifier):
     _loop_frame = None
 
     def check_invs(self, st, k, sp, tag, body_entry=None):
+        for name, expr in sp.get('views', {}).items():
+            cur = st.env.get(name)
+            if cur is None:
+                raise BindingError('view of unknown variable %s' % name)
+            v, new = self.spec_value(st, expr)
+            g = st.fork()
+            g.pc += new
+            self.oblige('view%d.%s:%s' % (k, name, tag), g, self.ev.equal(g, cur, v))
         for j, inv in enumerate(sp.get('invariant', [])):
             t, new = self.spec_eval(st, inv)
             g = st.fork()
@@ -239,6 +249,12 @@ class FnVerifier(Verifier):
         self.havoc_loop(h, body, extra_names)
         if post_havoc:
             post_havoc(h)
+        # views: at the loop head the variable *is* this expression (kept in slice normal form); proved like an invariant
+        for name, expr in sp.get('views', {}).items():
+            v, new = self.spec_value(h, expr)
+            for f in new:
+                h.assume(f)
+            h.env[name] = v
         self.assume_invs(h, sp)
         g = guard_fn(h)
         outs += self.split_pend(h)
@@ -305,6 +321,8 @@ class FnVerifier(Verifier):
             n = z3.If(hi > lo, hi - lo, 0)
         elif isinstance(seq, VList):
             n = st.llen(seq.t)
+        elif isinstance(seq, VStr):
+            n = z3.Length(seq.t)
         elif isinstance(seq, VTuple):
             return outs + self.unroll_for(st, s, seq.items)
         elif isinstance(seq, VPy) and isinstance(seq.obj, (tuple, list)):
@@ -328,6 +346,8 @@ class FnVerifier(Verifier):
                 val = VInt(lo + i)
             elif mode == 'reversed':
                 val = self.elem_value(b.lget(seq.t, n - 1 - i, seq.ek), seq.ek)
+            elif isinstance(seq, VStr):
+                val = VStr(z3.SubString(seq.t, i, 1))        # iteration over a string: its characters
             else:
                 val = self.elem_value(b.lget(seq.t, i, seq.ek), seq.ek)
             if mode == 'enumerate':
@@ -407,6 +427,8 @@ class FnVerifier(Verifier):
                 raise BindingError('contract of %s names parameter %s which the function does not have' % (self.qual, n))
         for n, k in ctr.free.items():
             self.closure_env[n] = fresh(k, n)
+        for n in ctr.yield_acc:
+            st.env[n] = VInt(0)
         # the static class of a parameter gives its isinstance facts
         for n, v in list(st.env.items()) + list(self.closure_env.items()):
             if isinstance(v, VRef) and v.cls and classes.get(v.cls) is not None:
@@ -515,6 +537,8 @@ class FnVerifier(Verifier):
                 s.env = dict(self.entry.env)
                 s.env['result'] = res
                 s.env['nyield'] = VInt(st.nyield)
+                for acc_ in self.ctr.yield_acc:
+                    s.env[acc_] = st.env[acc_]
                 t, new = self.spec_eval(s, ens)
                 g = st.fork()
                 g.pc += new
